@@ -90,7 +90,7 @@ func Run(prop string) func(c *hl.Ctx) error {
 			return nil
 		}
 		r := c.Rand()
-		nh := c.Pick(220, 6000)
+		nh := c.Pick(map[string]int{"C36": 150, "C37": 200, "C38": 220, "C39": 220, "C40": 220, "C41": 130}[prop], 2500)
 		for h := 0; h < nh; h++ {
 			gen := &Gen{R: r, MaxTop: 4, MaxDepth: 2, Boards: prop == "C41" || h%3 == 0, ForceBoard: prop == "C41",
 				Tricky: h%4 == 3, MultiRef: h%2 == 1 && os.Getenv("D2V_EDIT_NESTED") == "", Count: c.Count, Nested: os.Getenv("D2V_EDIT_NESTED") != ""}
